@@ -484,7 +484,7 @@ fn sync_part(tier: Tier, shard: Shard, stats: &mut Stats, case: &mut u64) {
                     Err(p) => stats.violation(Violation { class: format!("panic: {}", panic_class(&p)), config: format!("{:?}", fam), history: hist, detail: p }),
                     Ok(Err((class, detail))) => stats.violation(Violation { class: format!("{:?}: {class}", fam), config: format!("{:?}", fam), history: hist, detail }),
                     Ok(Ok((h, nt))) => {
-                        stats.state(h, nt && !script.is_empty());
+                        stats.state_outcome(h, nt && !script.is_empty());
                         if stats.samples.len() < 3 && script.len() == 2 {
                             stats.sample(json!(hist));
                         }
@@ -639,7 +639,7 @@ fn iter_part(tier: Tier, shard: Shard, stats: &mut Stats, case: &mut u64) {
                 match r {
                     Err(p) => stats.violation(Violation { class: format!("panic: {}", panic_class(&p)), config: "Iterator".into(), history: hist, detail: p }),
                     Ok(Err((class, detail))) => stats.violation(Violation { class: format!("Iterator: {class}"), config: "Iterator".into(), history: hist, detail }),
-                    Ok(Ok((h, nt))) => stats.state(h, nt),
+                    Ok(Ok((h, nt))) => stats.state_outcome(h, nt),
                 }
             }
         }
